@@ -168,7 +168,7 @@ func zzRequestSide(mode int) {
 	}
 	var body []byte
 	if varyBody {
-		body = verifrt.Bytes("body", verifrt.IntRange("bodylen", 0, 3))
+		body = verifrt.Bytes("body", verifrt.IntRange("bodylen", 0, 3+2*verifrt.Tier()))
 	}
 	r := &http.Request{Method: method, URL: &url.URL{Path: path, RawPath: rawPath, RawQuery: query}, Header: hdr, Host: "site",
 		RemoteAddr: remote, ContentLength: int64(len(body)), Body: io.NopCloser(bytes.NewReader(body)), Proto: "HTTP/1.1", ProtoMajor: 1, ProtoMinor: 1}
@@ -275,7 +275,7 @@ func (c *zzChunked) Close() error { c.closed = true; return nil }
 func VerifH04bResponse() {
 	st := verifrt.Int("status")
 	verifrt.Assume(st >= 200 && st <= 599)
-	body := verifrt.Bytes("body", verifrt.IntRange("bodylen", 0, 3))
+	body := verifrt.Bytes("body", verifrt.IntRange("bodylen", 0, 3+2*verifrt.Tier()))
 	hv := verifrt.String("hv", 1)
 	hop := verifrt.Choose("hop", len(zzHopNames)+2)
 	announced := verifrt.Bool("announced-trailer")
@@ -392,7 +392,7 @@ func VerifH04cRetry() {
 		u.Hosts = append(u.Hosts, h)
 	}
 	p := Proxy{Upstreams: []Upstream{u}}
-	body := verifrt.Bytes("body", verifrt.IntRange("bodylen", 0, 2))
+	body := verifrt.Bytes("body", verifrt.IntRange("bodylen", 0, 2+2*verifrt.Tier()))
 	query := []string{"", "q=1"}[verifrt.Choose("query", 2)]
 	r := &http.Request{Method: "POST", URL: &url.URL{Path: "/x", RawQuery: query}, Header: http.Header{"X-Add": []string{"client"}}, Host: "site",
 		RemoteAddr: "1.2.3.4:5", ContentLength: int64(len(body)), Body: io.NopCloser(bytes.NewReader(body)), Proto: "HTTP/1.1", ProtoMajor: 1, ProtoMinor: 1}
